@@ -28,12 +28,28 @@ def perturb(kind, delta):
         if kind == "rid":
             out["request_id"] = out["request_id"] + delta
         elif kind == "community" and "community" in out:
-            out["community"] = b"other"
+            c = bytes(out["community"])
+            out["community"] = COMMUNITY_VARIANTS[delta % len(COMMUNITY_VARIANTS)](c)
         elif kind == "version" and "community" in out:
-            out["version"] = 1 - out["version"]
+            out["version"] = [1 - out["version"], 2, 255, -1, 256 + out["version"]][delta % 5]
         return out
 
     return hook
+
+
+COMMUNITY_VARIANTS = [
+    lambda c: b"other",
+    lambda c: c + b"\xff",
+    lambda c: b"\x80" + c,
+    lambda c: c[:-1],
+    lambda c: c + b"\x00",
+    lambda c: c.upper(),
+    lambda c: b"",
+    lambda c: c[:3] + b"\xc3\xa9" + c[3:],
+    lambda c: c + b" ",
+    lambda c: c + c,
+]
+RID_DELTAS = [1, -1, 12345, 2**32, -(2**32), 2**33, 2**31, -(2**31), 256, 65536, 2**40, 2**64, 3 * 2**32]
 
 
 def clocks(rng):
@@ -89,8 +105,8 @@ def one_case(ctx, res, db, name, args, version, level, pert, clk_kind, clock, re
 def run(ctx):
     res = Result()
     reqs, impls = [], []
-    perts = [(None, 0), (None, 0), ("rid", 1), ("rid", -1), ("rid", 12345), ("community", 0), ("version", 0)]
-    for i in range(ctx.budget(1500, 30000)):
+    for i in range(ctx.budget(1800, 30000)):
+        perts = [(None, 0), (None, 0), ("rid", RID_DELTAS[(i // 7) % len(RID_DELTAS)]), ("rid", ctx.rng.choice(RID_DELTAS)), ("rid", ctx.rng.randrange(-(2**33), 2**33) or 1), ("community", i // 7), ("version", i // 7)]
         db = O.random_db(ctx.rng, ctx.rng.randint(1, 8))
         name, args = O.random_op(ctx.rng, db)
         version, level = O.PROTOS[i % len(O.PROTOS)] if i % 2 else ("v2c", "noauth")
@@ -108,13 +124,14 @@ def run(ctx):
         if bad:
             res.violate("e2e-clock-walk", {"db": db, "roots": roots, "kind": kind}, "walk completes under an advancing clock", walk, bad, {"kind": "echo-refused", "op": "walk"})
         k = ctx.rng.randint(0, 3)
+        wdelta = ctx.rng.choice(RID_DELTAS)
         agent2 = RA.Agent(db=[(tuple(o), v) for o, v in db])
         cnt = {"n": 0}
 
-        def hook(agent, msg, out, k=k, cnt=cnt):
+        def hook(agent, msg, out, k=k, cnt=cnt, wdelta=wdelta):
             if isinstance(out, dict):
                 if cnt["n"] == k:
-                    out["request_id"] += 1
+                    out["request_id"] += wdelta
                 cnt["n"] += 1
             return out
 
@@ -125,10 +142,10 @@ def run(ctx):
         out = W.run(W._consume(rec, agen))
         res.evaluations += 1
         if cnt["n"] > k and out != ["error", ["invalidResponseId"]]:
-            res.violate("e2e-clock-walk", {"db": db, "roots": roots, "kind": kind, "perturbed_request": k}, ["error", ["invalidResponseId"]], out, "a walk accepted a response with a foreign request-id", {"kind": "foreign-response-accepted", "op": "walk"})
+            res.violate("e2e-clock-walk", {"db": db, "roots": roots, "kind": kind, "perturbed_request": k, "delta": wdelta}, ["error", ["invalidResponseId"]], out, "a walk accepted a response with a foreign request-id", {"kind": "foreign-response-accepted", "op": "walk"})
     # discovery exchange: a reply whose message id does not match the probe must be refused
-    for i in range(ctx.budget(40, 400)):
-        delta = [0, 1, -1, 777][i % 4]
+    for i in range(ctx.budget(60, 600)):
+        delta = [0, 1, -1, 777, 2**32, -(2**32), 2**31, 2**40, 0, 65536][i % 10]
         agent = RA.Agent(db=[((1, 3, 6, 1, 2, 1, 1, 1, 0), ["int", 1])])
 
         def dhook(agent, msg, out, delta=delta):
